@@ -11,6 +11,12 @@
              API stream, error, cancellation by a new subscription - `finally:` bodies and handlers
              included) are the pair's senders / the channels closed or the pairs emptied before the
              fan-out tasks in flight have been awaited.
+  C20.SRC    exactly once from the sending side: the only thing ever put on a metric channel is a sample of the
+             message the receive loop holds now.  The fan-out function is referenced in one place only, the
+             hand-over in the body of the message loop (no call before / after the loop, from another method,
+             as a callback); the message argument is the loop's target, which nothing else binds; the hand-over
+             is evaluated once per iteration; the module has no send besides the fan-out's; the registry's
+             Broadcast channels are not built with resend_latest.
   C20.ONCE   API receivers are created only when absent and never removed or replaced; stream tasks
              are written only in _update_streams after cancelling the previous one and never
              removed elsewhere.
@@ -962,6 +968,137 @@ def _check_outlives(run: Run, prog: Program, st: Stream, hand: list[int], closes
               "pairs; await the pool of fan-out tasks first, or leave the senders to the garbage collector",
               node=cfg.nodes[wit[-1][0]].ast if wit else hs.node, file=hs.file, path=cfg.describe_path(wit),
               instance=f"{hs.qual} :: senders / channels / pairs untouched while fan-out tasks are in flight")
+
+
+# ======================================================================================== C20.SRC
+SEND_METHODS = {"send", "send_nowait", "put", "put_nowait"}
+CHANNELS = "_internal._channels"
+
+
+def check_source(run: Run, prog: Program, st: Stream) -> None:
+    """Exactly once, seen from the sending side: the only thing that is ever put on a metric channel is a
+    sample of the message the receive loop holds *now*, and that message is handed to the fan-out once.
+
+      * the fan-out function is referenced in exactly one place, the hand-over call in the body of the message
+        loop (no second call before / after the loop, in another method, as a callback or through partial);
+      * the message argument of that call is the loop's target and the loop is the only thing that binds it
+        (not re-bound in the body to something remembered, not written by a closure through `nonlocal`);
+      * the hand-over is evaluated at most once per iteration (not in a nested loop / comprehension);
+      * the module has no send besides the fan-out's own (no second send loop over the pairs);
+      * the registry's channels do not replay on their own (`Broadcast(resend_latest=True)`).
+    FAN has already shown that the sample built inside the fan-out comes from its (un-rebound) message parameter.
+    """
+    hs, cfg = st.hs, st.cfg
+    mod = prog.module(SRC)
+    tail = ("every message taken from the component's API stream must reach the senders exactly once: the fan-out sends to "
+            "EVERY sender the task has built, the streams that were already subscribed included, and the stream task is "
+            "restarted on every new subscription - so anything else that is sent (the last message kept in an attribute / a "
+            "per-component dict and replayed when a task starts, a message remembered from an earlier iteration, a cached "
+            "sample, a second send loop) is delivered a second time to the existing streams (1, 2, 2, 3, ...) and gives a "
+            "new stream a sample from before it subscribed")
+    inst = f"{hs.qual} :: "
+    if len(st.fan_calls) != 1:
+        run.check(False, "C20.SRC", hs.qual, "one hand-over of the loop's message to the fan-out function",
+                  f"{len(st.fan_calls)} calls in the message loop hand the message to a closure / private method; {tail}",
+                  node=st.loop, file=hs.file, instance=inst + "fan-out referenced only by the hand-over in the message loop")
+        return
+    call, pm, binding = st.fan_calls[0]
+    name = pm.name
+    # ---- who refers to the fan-out function
+    refs: list[ast.AST] = []
+    if pm.outer is not None:
+        # a closure of the stream coroutine: visible in that coroutine (its other closures included) only
+        refs = [n for n in ast.walk(hs.node) if isinstance(n, ast.Name) and n.id == name and isinstance(n.ctx, ast.Load)]
+        defs = [n for n in ast.walk(hs.node) if isinstance(n, (ast.FunctionDef, ast.AsyncFunctionDef, ast.ClassDef)) and n.name == name]
+        rebound = len(defs) != 1 or len(st.x.binds.get(name, [])) != 1
+        elsewhere = 0
+    else:
+        # a private method / module function: everything in the module can reach it
+        def is_ref(n: ast.AST) -> bool:
+            return (isinstance(n, ast.Attribute) and n.attr == name) or (isinstance(n, ast.Name) and n.id == name) \
+                or (isinstance(n, ast.Constant) and n.value == name)
+
+        refs = [n for n in ast.walk(hs.node) if is_ref(n)]
+        rebound = False
+        elsewhere = sum(1 for n in ast.walk(mod.tree) if is_ref(n)) - 1
+    other = [r for r in refs if r is not call.func]
+    where = ""
+    if other:
+        par = parent_map(hs.node)
+        holder: ast.AST | None = other[0]
+        while holder is not None and not isinstance(holder, ast.stmt):
+            holder = par.get(holder)
+        in_loop = holder is not None and any(holder is s2 for b in st.loop.body for s2 in ast.walk(b))
+        where = f"`{u(holder)[:90] if holder is not None else u(other[0])}` (line {getattr(other[0], 'lineno', '?')}, " \
+                f"{'inside' if in_loop else 'outside'} the message loop) also refers to `{name}`"
+    elif elsewhere > 0:
+        where = f"`{name}` is referred to {elsewhere} more time(s) in {mod.rel} outside the stream coroutine"
+    elif rebound:
+        where = f"`{name}` is defined or bound more than once in the stream coroutine"
+    run.check(not other and elsewhere <= 0 and not rebound and len(refs) == 1, "C20.SRC", hs.qual,
+              f"`{name}` is referenced once: by the hand-over `{u(call)}` in the message loop",
+              f"the fan-out function is reached from somewhere else than the hand-over of the receive loop's current message: "
+              f"{where or 'the hand-over call is not its only reference'}; what it is given there is not a message just taken from "
+              f"the API receiver - {tail}", node=other[0] if other else st.loop, file=hs.file,
+              instance=inst + "fan-out referenced only by the hand-over in the message loop")
+    # ---- what is handed over, and how often
+    binds = st.x.binds.get(st.msg, [])
+    nonlocal_w = [n for n in ast.walk(hs.node) if isinstance(n, (ast.Nonlocal, ast.Global)) and st.msg in n.names]
+    msg_args = [a for a in binding.values() if st.x.x(a) == st.msg]
+    single = len(binds) == 1 and st.msg not in st.x.params and not nonlocal_w and len(msg_args) == 1 \
+        and isinstance(st.x.expand(msg_args[0]), ast.Name)
+    par = parent_map(hs.node)
+    up: ast.AST | None = par.get(call)
+    multi = None
+    while up is not None and not isinstance(up, ast.stmt):
+        if isinstance(up, (*_COMPREHENSIONS, ast.Lambda)):
+            multi = up
+        up = par.get(up)
+    hand = nodes_with_call(cfg, lambda c: c is call)
+    again = None
+    for hn in hand:
+        again = again or cfg.path(hn, hand, avoid=[st.head], edge_ok=_normal, include_src=False)
+    why = ""
+    if not single:
+        why = f"`{st.msg}`, the target of the message loop, is bound {len(binds)} time(s) in the stream coroutine" \
+              f"{' and written through nonlocal' if nonlocal_w else ''}: what is handed over may be a message kept from an earlier " \
+              "iteration / an earlier task instead of the one just received"
+    elif multi is not None or again is not None or not hand:
+        why = "the hand-over is evaluated more than once for one message (nested loop / comprehension)"
+    run.check(single and multi is None and again is None and bool(hand), "C20.SRC", hs.qual,
+              f"`{u(call)}`: the message handed over is the loop target `{st.msg}` (bound by the loop only), once per iteration",
+              f"{why}; {tail}", node=call, file=hs.file, path=cfg.describe_path(again),
+              instance=inst + "the hand-over passes the loop's current message, once per iteration")
+    # ---- nothing else sends
+    sends_mod = [c for c in ast.walk(mod.tree) if isinstance(c, ast.Call) and isinstance(c.func, ast.Attribute) and c.func.attr in SEND_METHODS]
+    sends_fan = [c for c in ast.walk(pm.node) if isinstance(c, ast.Call) and isinstance(c.func, ast.Attribute) and c.func.attr in SEND_METHODS]
+    sends_hs = [c for c in ast.walk(hs.node) if isinstance(c, ast.Call) and isinstance(c.func, ast.Attribute) and c.func.attr in SEND_METHODS
+                and not any(c is k for k in sends_fan)]
+    extra = sends_hs[0] if sends_hs else None
+    ok = len(sends_fan) == 1 and len(sends_mod) == 1 and not sends_hs
+    run.check(ok, "C20.SRC", hs.qual, f"the one send of {mod.rel} is the fan-out's `{u(sends_fan[0]) if sends_fan else '?'}`",
+              f"{mod.rel} sends in {len(sends_mod)} place(s), {len(sends_fan)} of them inside the fan-out function"
+              + (f" (`{u(extra)[:80]}`, line {extra.lineno})" if extra is not None else "") +
+              f": a send outside the per-message fan-out puts something on a metric channel that is not the sample of the message "
+              f"just received - {tail}", node=extra or hs.node, file=hs.file,
+              instance=inst + "no send besides the fan-out's")
+    # ---- the channels themselves do not replay
+    try:
+        ch_mod = prog.module(CHANNELS)
+    except (AnalysisError, KeyError):
+        ch_mod = None
+    if ch_mod is not None:
+        made = [c for c in ast.walk(ch_mod.tree) if isinstance(c, ast.Call) and u(c.func).split(".")[-1].split("[")[0] == "Broadcast"]
+        bad = [c for c in made if any(k.arg is None or (k.arg == "resend_latest" and const_bool(k.value) is not False) for k in c.keywords)
+               or any(isinstance(a, ast.Starred) for a in c.args) or len(c.args) > 1]
+        run.check(bool(made) and not bad, "C20.SRC", f"{CHANNELS}:ChannelRegistry", "Broadcast(...) without resend_latest",
+                  f"`{u(bad[0])[:90] if bad else 'no Broadcast(...) construction found'}`: a channel of the registry that re-sends its "
+                  "latest message hands every receiver created later (a new subscription's stream) a sample that was sent before it "
+                  "subscribed", node=bad[0] if bad else None, file=ch_mod.rel,
+                  instance=f"{CHANNELS}:ChannelRegistry :: registry channels do not replay their latest message")
+
+
+_COMPREHENSIONS = (ast.ListComp, ast.SetComp, ast.DictComp, ast.GeneratorExp)
 
 
 # ======================================================================================== C20.ONCE
@@ -1984,6 +2121,12 @@ CONTROLS = [
      "                done, pending = await asyncio.wait(sending_tasks, timeout=0)\n",
      "                try:\n                    done, pending = await asyncio.wait(sending_tasks, timeout=0)\n"
      "                except (asyncio.CancelledError, Exception):\n                    return sending_tasks\n", "C20.ONCE"),
+    ("registry channels replay their latest message to new receivers", CHANNELS,
+     "Broadcast(name=f\"{self._name}-{key}\")", "Broadcast(name=f\"{self._name}-{key}\", resend_latest=True)", "C20.SRC"),
+    ("message handed over twice per iteration", SRC,
+     "                sending_tasks.add(asyncio.create_task(process_msg(data), name=name))\n",
+     "                for _again in (0, 1):\n                    sending_tasks.add(asyncio.create_task(process_msg(data), name=name))\n",
+     "C20.SRC"),
     ("validator registers no receiver", SRC,
      "            self.comp_data_receivers[comp_id] = (\n                await connection_manager.get().api_client.ev_charger_data(comp_id)\n            )",
      "            await connection_manager.get().api_client.ev_charger_data(comp_id)", "C20.ONCE"),
@@ -2011,6 +2154,26 @@ def build_controls(prog: Program) -> list[tuple[str, str, str, str, str]]:
     if not bound or _STREAM_TAIL not in src or ro.hs.module.source.count(_STREAM_TAIL) != 1:
         return out
     comp = st.comp_p
+    # C20.SRC: written with the names the message loop / the fan-out / the pairs are bound to on this tree
+    loops = [n for n in walk_own(ro.hs.node) if isinstance(n, ast.AsyncFor)]
+    lines = ro.hs.module.source.splitlines(keepends=True)
+    if len(loops) == 1 and len(st.fan_calls) == 1 and loops[0].body and loops[0].body[0].lineno > loops[0].lineno:
+        head = "".join(lines[loops[0].lineno - 1:loops[0].body[0].lineno - 1])
+        ind = head[:len(head) - len(head.lstrip())]
+        call = st.fan_calls[0][0]
+        kept = "self.__dict__['last_msg_']"
+        replay = u(subst_names(call, {st.msg: ast.parse(kept, mode="eval").body}))
+        if head.strip() and ro.hs.module.source.count(head) == 1:
+            out += [
+                ("last message kept on the instance replayed through the fan-out when a stream task starts", SRC, head,
+                 f"{ind}if 'last_msg_' in self.__dict__:\n{ind}    asyncio.create_task({replay})\n" + head
+                 + f"{ind}    self.__dict__['last_msg_'] = {st.msg}\n", "C20.SRC"),
+                ("loop message re-bound to a remembered one before the hand-over", SRC, head,
+                 head + f"{ind}    {st.msg} = self.__dict__.setdefault('last_msg_', {st.msg})\n", "C20.SRC"),
+                ("cached sample sent to the pairs' senders outside the fan-out", SRC, head,
+                 f"{ind}for _, old_senders_ in {pairs}:\n{ind}    for old_sender_ in old_senders_:\n"
+                 f"{ind}        await old_sender_.send(self.__dict__['last_sample_'])\n" + head, "C20.SRC"),
+            ]
     out += [
         ("old senders closed in a finally of the stream task (also runs on cancellation)", SRC, _STREAM_TAIL,
          _STREAM_TAIL + f"        finally:\n            for _, old_senders_ in {pairs}:\n                for old_sender_ in old_senders_:\n"
@@ -2031,6 +2194,7 @@ def run_rules(run: Run, prog: Program) -> None:
     st = Stream(prog, ro)
     check_fan(run, prog, st)
     check_atom(run, prog, st)
+    check_source(run, prog, st)
     check_once(run, prog, st)
     check_dedup(run, prog, ro)
     check_unknown_lookup(run, prog, ro)
@@ -2041,6 +2205,8 @@ def check(run: Run, prog: Program, tier: str) -> str:
     run.rule("C20.TAB", "extractor tables read the field named like the metric; category dispatch agrees across lookup and validators")
     run.rule("C20.FAN", "every message -> one sample per sender of every pair, extractor and senders from the same request item")
     run.rule("C20.ATOM", "no await between taking a message and creating its independent fan-out task")
+    run.rule("C20.SRC", "the only thing sent is a sample of the receive loop's current message, handed to the fan-out once: no other "
+                        "reference to the fan-out, no re-bound message, no second send, no replaying channel")
     run.rule("C20.ONCE", "API receivers created once and never removed; stream tasks replaced only by cancel-then-register")
     run.rule("C20.DEDUP", "unknown ids change nothing; scan-then-append without await; idempotent subscribe; get_or_create creates only when absent")
     run.rule("C20.REQ", "the data-sourcing actor's request receiver holds at least what the receivers of the actors that forward to it hold")
@@ -2049,6 +2215,7 @@ def check(run: Run, prog: Program, tier: str) -> str:
     run.floor("C20.TAB", 55)
     run.floor("C20.FAN", 5)
     run.floor("C20.ATOM", 5)
+    run.floor("C20.SRC", 4)
     run.floor("C20.ONCE", 9)
     run.floor("C20.DEDUP", 8)
     from ..engine.controls import run_controls
